@@ -159,6 +159,35 @@ theorem matchV_of_subst {θ : Subst} {e e' : Expr} (h : substV θ e = some e') :
     · cases h
   · cases h
 
+theorem matchArgs_of_subst {θ : Subst} : ∀ (fs : List FnArg) (as as' : List Expr),
+    substArgs θ fs as = some as' → matchArgs θ fs as as' = true
+  | [], [], as', h => by simp only [substArgs, Option.some.injEq] at h; subst h; rfl
+  | [], _ :: _, _, h => by simp [substArgs] at h
+  | ⟨x, .ctrl k⟩ :: fs, [], _, h => by simp [substArgs] at h
+  | ⟨x, .scalar⟩ :: fs, [], _, h => by simp [substArgs] at h
+  | ⟨x, .tensor _ _⟩ :: fs, [], _, h => by simp [substArgs] at h
+  | ⟨x, .ctrl k⟩ :: fs, a :: as, as', h => by
+    simp only [substArgs] at h
+    split at h
+    · rename_i a' r' ha hr
+      cases h
+      simp [matchArgs, matchC_of_subst ha, matchArgs_of_subst fs as r' hr]
+    · cases h
+  | ⟨x, .scalar⟩ :: fs, a :: as, as', h => by
+    simp only [substArgs] at h
+    split at h
+    · rename_i a' r' ha hr
+      cases h
+      simp [matchArgs, matchV_of_subst ha, matchArgs_of_subst fs as r' hr]
+    · cases h
+  | ⟨x, .tensor _ _⟩ :: fs, a :: as, as', h => by
+    simp only [substArgs] at h
+    split at h
+    · rename_i a' r' ha hr
+      cases h
+      simp [matchArgs, matchV_of_subst ha, matchArgs_of_subst fs as r' hr]
+    · cases h
+
 mutual
 theorem matchS_of_subst : ∀ (s s' : Stmt) (θ θ1 θ2 : Subst), substS θ s = some (s', θ1) →
     bindersFreshS θ s = some θ2 → matchS θ s s' = some θ1 ∧ θ2 = θ1
@@ -258,7 +287,15 @@ theorem matchS_of_subst : ∀ (s s' : Stmt) (θ θ1 θ2 : Subst), substS θ s = 
         simp [matchS, matchV_of_subst h1, hc]
       · cases hb
     · cases hs
-  | .call _ _, s', θ, θ1, θ2, hs, hb => by simp [substS] at hs
+  | .call g as, s', θ, θ1, θ2, hs, hb => by
+    simp only [substS] at hs
+    split at hs
+    · rename_i as' h1
+      cases hs
+      simp only [bindersFreshS, Option.some.injEq] at hb
+      subst hb
+      simp [matchS, eqP_refl, matchArgs_of_subst g.args as as' h1]
+    · cases hs
 theorem matchL_of_subst : ∀ (ss ss' : List Stmt) (θ : Subst), substL θ ss = some ss' →
     bindersFreshL θ ss = true → ∃ θ', matchL θ ss ss' = some θ'
   | [], ss', θ, hs, _ => by
